@@ -25,6 +25,10 @@ import (
 	"math/rand"
 	"sort"
 	"strings"
+
+	"github.com/cosmos/cosmos-sdk/simapp"
+
+	"github.com/teleport-network/teleport/app"
 	"testing"
 	"time"
 
@@ -119,7 +123,26 @@ func newHist(r *core.Run, id string) *hist {
 	for nonce := uint64(0); nonce < 2; nonce++ {
 		h.coins = append(h.coins, aggtypes.CreateDenom(crypto.CreateAddress(h.dep.Eth, nonce).String()))
 	}
-	h.n = core.NewNode(core.NodeConfig{ChainID: "teleport_9000-1", XIBCName: "teleport", Accounts: accs, MutateGenesis: ac.FundGenesis(accs, h.coins, ac.UserFunds)})
+	fund := ac.FundGenesis(accs, h.coins, ac.UserFunds)
+	mut := fund
+	if h.rng.Intn(2) == 0 {
+		// the chain starts with a pair in its genesis file: the externally owned contract the deployer creates third, its
+		// address written in lower case (genesis validation only asks for a hex address and the import stores the string as
+		// given; pairs made on chain carry the mixed-case form)
+		ga := crypto.CreateAddress(h.dep.Eth, 2)
+		mut = func(tp *app.Teleport, gs simapp.GenesisState) {
+			fund(tp, gs)
+			var ag aggtypes.GenesisState
+			tp.AppCodec().MustUnmarshalJSON(gs[aggtypes.ModuleName], &ag)
+			ag.TokenPairs = append(ag.TokenPairs, aggtypes.TokenPair{ERC20Address: strings.ToLower(ga.Hex()), Denoms: []string{aggtypes.CreateDenom(ga.String())}, Enabled: true, ContractOwner: aggtypes.OWNER_EXTERNAL})
+			if err := ag.Validate(); err != nil {
+				panic(err)
+			}
+			gs[aggtypes.ModuleName] = tp.AppCodec().MustMarshalJSON(&ag)
+		}
+		r.Count("histories_starting_from_a_genesis_pair_with_lower_case_address", 1)
+	}
+	h.n = core.NewNode(core.NodeConfig{ChainID: "teleport_9000-1", XIBCName: "teleport", Accounts: accs, MutateGenesis: mut})
 	h.clk = time.Date(2022, 1, 2, 0, 0, 5, 0, time.UTC)
 	h.n.Begin(h.clk)
 	err, _ := core.Catch(func() error {
